@@ -34,6 +34,7 @@ deriving Repr, Inhabited
 
 /-- state of a scripted future (C20) -/
 structure FutSt where
+  slotMutex : Nat := 0            -- the loom `Mutex` around its hand-rolled waker slot
   awMutex : Nat := 0              -- the `rt::Mutex` of its `AtomicWaker`
   notify : Nat := 0               -- the `rt::Notify` of the `block_on` in progress
   arc : Nat := 0                  -- index (in `World.arcs`) of the `Arc<rt::Notify>` of that `block_on`
@@ -110,8 +111,8 @@ def init (prog : Prog) (exec : Exec) : Except Panic World := do
   -- one `AtomicWaker` (an `rt::Mutex::new(false)`) per scripted future
   let mut futs : List FutSt := []
   for _ in List.range c.nFutures do
-    futs := futs ++ [{ awMutex := objs.length }]
-    objs := objs ++ [.mutex { seqCst := false }]
+    futs := futs ++ [{ slotMutex := objs.length, awMutex := objs.length + 1 }]
+    objs := objs ++ [.mutex { seqCst := true }, .mutex { seqCst := false }]
   pure { prog, exec := { exec with objs }, notifyWaiting := List.replicate c.nNotifies false, futs }
 
 /-! ### helpers mirroring `object.rs` branch functions -/
@@ -384,8 +385,9 @@ def tlsGet (w : World) (k : Nat) : World × Option Nat :=
   | some (some id) => (w, some id)
   | some none => (w, none)
   | none =>
-    let id := w.tlsInits.getD k 0 + 1
-    let w := { w with tlsInits := w.tlsInits.set k id }
+    -- the harness' instance id names the owning thread (first initialisation by this thread: t*10 + 1)
+    let id := t * 10 + 1
+    let w := { w with tlsInits := w.tlsInits.set k (w.tlsInits.getD k 0 + 1) }
     (w.modCtl t fun c => { c with locals := (k, some id) :: c.locals }, some id)
 
 /-- `Lazy::get` followed by a read of the cell inside the value; returns `id*100 + content` -/
@@ -459,14 +461,23 @@ def blockOnStage (w : World) (c : TCtl) (f mode : Nat) : Except Panic World := d
     if r == .val 1 then (w.setStage 40).branch ao .arcDec
     else (w.setStage (if mode == 0 then 12 else 20)).branch ao .arcInc
   | 12 => do
+    -- mode 0: `let mut g = slot.lock(); *g = Some(waker); drop(g)`
     let w ← w.wakerClone fs.arc
-    let had := fs.slot
+    let m ← w.getMutex fs.slotMutex
+    (w.setStage 30).branch fs.slotMutex .opaque (block := m.lock.isSome)
+  | 30 => do
+    let (w, okk) ← w.postAcquire fs.slotMutex
+    if !okk then throw .expectedLock
+    let had := (w.futs.getD f {}).slot
     let w := w.modFut f fun s => { s with slot := true }
-    -- mode 0: the slot carries no synchronisation; `fence(SeqCst)` pairs with the waking side
-    if had then (w.setStage 13).branch ao .arcDec else pure (w.fenceSC.setStage 14)
+    if had then (w.setStage 13).branch ao .arcDec
+    else do
+      let w ← w.releaseLock fs.slotMutex
+      pure (w.setStage 14)
   | 13 => do
     let w ← w.wakerDrop fs.arc
-    pure (w.fenceSC.setStage 14)
+    let w ← w.releaseLock fs.slotMutex
+    pure (w.setStage 14)
   | 14 => w.primStart f (.load .acq) 15
   | 15 => do
     let (w, r) ← w.primEffect f (.load .acq)
@@ -505,11 +516,18 @@ def blockOnStage (w : World) (c : TCtl) (f mode : Nat) : Except Panic World := d
     -- `block_on` returns: its own `Arc` handle is dropped
     let w ← w.wakerDrop fs.arc
     if mode == 0 then
-      if fs.slot then ((w.modFut f fun s => { s with slot := false }).setStage 43).branch ao .arcDec
-      else pure (w.complete (.val 7))
+      let m ← w.getMutex fs.slotMutex
+      (w.setStage 45).branch fs.slotMutex .opaque (block := m.lock.isSome)
     else
       let m ← w.getMutex fs.awMutex
       (w.setStage 44).branch fs.awMutex .opaque (block := m.lock.isSome)
+  | 45 => do
+    let (w, okk) ← w.postAcquire fs.slotMutex
+    if !okk then throw .expectedLock
+    let had := (w.futs.getD f {}).slot
+    let w := w.modFut f fun s => { s with slot := false }
+    let w ← w.releaseLock fs.slotMutex
+    if had then (w.setStage 43).branch ao .arcDec else pure (w.complete (.val 7))
   | 43 => do
     let w ← w.wakerDrop fs.arc
     pure (w.complete (.val 7))
@@ -522,24 +540,39 @@ def blockOnStage (w : World) (c : TCtl) (f mode : Nat) : Except Panic World := d
     if had then (w.setStage 43).branch ao .arcDec else pure (w.complete (.val 7))
   | _ => throw (.internal 90)
 
-/-- `wake f` (by value, consuming the waker in the slot) / `wakeref f` (by reference) -/
+/-- `wake f`: `flag.store(1, Release); let w = slot.lock().take(); w.wake()`;
+`wakeref f`: `flag.store(1, Release); let g = slot.lock(); g.as_ref().wake_by_ref(); drop(g)` -/
 def wakeStage (w : World) (c : TCtl) (f : Nat) (byValue : Bool) : Except Panic World := do
   let fs := w.futs.getD f {}
   match c.stage with
   | 0 => w.primStart f (.store 1 .rel)
   | 1 => do
     let (w, _) ← w.primEffect f (.store 1 .rel)
-    let w := w.fenceSC
-    if fs.slot then
-      let w := if byValue then w.modFut f fun s => { s with slot := false } else w
-      (w.setStage 2).branch fs.notify .opaque
-    else pure (w.complete .unit)
+    let m ← w.getMutex fs.slotMutex
+    (w.setStage 2).branch fs.slotMutex .opaque (block := m.lock.isSome)
   | 2 => do
+    let (w, okk) ← w.postAcquire fs.slotMutex
+    if !okk then throw .expectedLock
+    let had := (w.futs.getD f {}).slot
+    if byValue then
+      let w := w.modFut f fun s => { s with slot := false }
+      let w ← w.releaseLock fs.slotMutex
+      if had then (w.setStage 3).branch fs.notify .opaque else pure (w.complete .unit)
+    else
+      if had then (w.setStage 5).branch fs.notify .opaque
+      else do
+        let w ← w.releaseLock fs.slotMutex
+        pure (w.complete .unit)
+  | 3 => do
     let w ← w.notifyEffect fs.notify
-    if byValue then (w.setStage 3).branch (w.arcInfo fs.arc).obj .arcDec
-    else pure (w.complete .unit)
-  | _ => do
+    (w.setStage 4).branch (w.arcInfo fs.arc).obj .arcDec
+  | 4 => do
     let w ← w.wakerDrop fs.arc
+    pure (w.complete .unit)
+  | _ => do
+    -- by reference: notify while the guard is held, then unlock
+    let w ← w.notifyEffect fs.notify
+    let w ← w.releaseLock fs.slotMutex
     pure (w.complete .unit)
 
 /-- one stage of operation `op` of the active thread -/
@@ -891,11 +924,18 @@ def runOp (w : World) (c : TCtl) (op : Op) : Except Panic World := do
   | .wakeRef f => w.wakeStage c f false
   | .dropWaker f =>
     let fs := w.futs.getD f {}
-    if c.stage == 0 then
-      if fs.slot then
-        ((w.modFut f fun s => { s with slot := false }).setStage 1).branch (w.arcInfo fs.arc).obj .arcDec
-      else pure (w.complete .unit)
-    else do
+    match c.stage with
+    | 0 => do
+      let m ← w.getMutex fs.slotMutex
+      (w.setStage 1).branch fs.slotMutex .opaque (block := m.lock.isSome)
+    | 1 => do
+      let (w, okk) ← w.postAcquire fs.slotMutex
+      if !okk then throw .expectedLock
+      let had := (w.futs.getD f {}).slot
+      let w := w.modFut f fun s => { s with slot := false }
+      let w ← w.releaseLock fs.slotMutex
+      if had then (w.setStage 2).branch (w.arcInfo fs.arc).obj .arcDec else pure (w.complete .unit)
+    | _ => do
       let w ← w.wakerDrop fs.arc
       pure (w.complete .unit)
   | .awWake f =>
@@ -932,13 +972,13 @@ def runOp (w : World) (c : TCtl) (op : Op) : Except Panic World := do
 /-- `Thread::drop_locals` + dropping the values outside the execution: every live thread-local of
 the active thread is taken out (later accesses get `AccessError`), then dropped.  The destructors'
 effects follow `cfg.tlsDtor`; the keys whose destructor performs a loom operation are queued.
-The implementation iterates a `HashMap`; the twin drops in ascending key order (finding F14: with
-two destructors that perform loom operations the implementation's order is not deterministic). -/
+The values are dropped in the order in which the thread initialised them (`Thread::locals` is a
+vector in initialisation order since the repair of finding F14; it was a `HashMap` before). -/
 def dropLocals (w : World) : World :=
   let t := w.tid
   let c := w.ctlOf t
-  let live := (c.locals.filterMap fun (k, v) => v.map fun _ => k)
-  let live := [0, 1].filter fun k => live.contains k
+  -- `locals` is consed: initialisation order is the reverse
+  let live := (c.locals.reverse.filterMap fun (k, v) => v.map fun _ => k)
   let w := w.modCtl t fun c => { c with locals := c.locals.map fun (k, _) => (k, none) }
   let w := live.foldl (fun w k => { w with tlsDrops := w.tlsDrops.set k (w.tlsDrops.getD k 0 + 1) }) w
   match w.cfg.tlsDtor with
@@ -946,13 +986,14 @@ def dropLocals (w : World) : World :=
   | 2 =>
     -- the destructor of `k` calls `try_with` on the other key: destroyed → 2; never initialised by this
     -- thread → it is initialised now (and never dropped) → 1
-    live.foldl (fun w k =>
-      let other := 1 - k
-      match (w.ctlOf t).locals.lookup other with
-      | some _ => { w with tlsObs := w.tlsObs.set k 2 }
+    -- (only key 0's destructor probes, see the harness)
+    if live.contains 0 then
+      match (w.ctlOf t).locals.lookup 1 with
+      | some _ => { w with tlsObs := w.tlsObs.set 0 2 }
       | none =>
-        let (w, _) := w.tlsGet other
-        { w with tlsObs := w.tlsObs.set k 1 }) w
+        let (w, _) := w.tlsGet 1
+        { w with tlsObs := w.tlsObs.set 0 1 }
+    else w
   | _ => w
 
 /-- `rt::thread_done` after `drop_locals` -/
